@@ -237,6 +237,11 @@ class CallMixin:
             rty = self.reg.parse(obj.rettype)
             f = self.uf("ghost_" + obj.name, [self.reg.sort(t) for t in tys], self.reg.sort(rty))
             cargs = [self.coerce(a, t) for a, t in zip(args, tys)]
+            rw = self.ufun_rewrites.get(obj.name)
+            if rw is not None:
+                r = rw(self, cargs)
+                if r is not None:
+                    return [(s, r)]
             return [(s, Val(rty, f(*[a.t for a in cargs])))]
         if isinstance(obj, type):
             return self.construct(s, obj, args, kwargs, node)
@@ -587,6 +592,9 @@ class CallMixin:
                 news = dict(s.ghost.get("__new__", {}))
                 news[ret.name] = news.get(ret.name, []) + [result.t]
                 s.ghost["__new__"] = news
+        if c.result_name is not None:
+            named = self.eval_spec_fn(s, c.result_name, env)
+            s.assume(self.eq(result, named))
         if c.post is not None:
             amap = dict(env)
             amap["result"] = result
